@@ -22,6 +22,24 @@ BAD = {"sp_sep": 0, "sp_lparen": 0, "sp_rparen": 0, "sp_path_fmt": b"", "sp_scan
        "sp_strtok_delim_is_sep": False, "sp_left_first": False, "sp_right_last": False, "sp_reject_empty": True,
        "sp_start_parent": False, "sp_loop_while_nonzero": False, "sp_cmp_exact": False, "sp_drop_iff_found": False}
 
+# what the translator looks for, per field (quoted in the diagnosis when it is not found)
+EXPECT = {
+ "sp_sep": "#define PROGLISTSEP '<char>'",
+ "sp_comm_max": "size_t len; len = right - left - 1; if ([len <= 0 ||] [right < left ||] len >= <N>) { return -1; } with <N> <= sizeof st_comm_buf; memcpy(st_comm_buf, left + 1, len); st_comm_buf[len] = '\\0';",
+ "sp_buf_size": "char st_buf[<N>]; in find_ancestor_in_list",
+ "sp_read_adj": "rc = (int) fread(st_buf, 1, <N>, statf); st_buf[rc] = '\\0'; (inline or in a static helper that hands rc back)",
+ "sp_size_min": "if (rc < <N>) { return -1; }",
+ "sp_path_max": "char stat_path[<N>]; snprintf(stat_path, <M>, \"/proc/%d/stat\", ppid) with <M> <= <N>",
+ "sp_path_fmt": "snprintf(stat_path, ..., \"<format>\", ppid); statf = fopen(stat_path, \"r\"); if (statf == NULL) { return -1; }",
+ "sp_scan_fmt": "pid_t ppid; rc = sscanf(right + 1, \"<format>\", &st_state, &ppid); if (rc != 2) { return -1; }",
+ "sp_lparen": "left = strchr(st_buf, '(');", "sp_rparen": "right = strrchr(st_buf, ')');",
+ "sp_left_first": "left = strchr(st_buf, '('); ... if (left == NULL || right == NULL) { return -1; }",
+ "sp_right_last": "right = strrchr(st_buf, ')');",
+ "sp_reject_empty": "if ([right < left ||] len >= ST_COMM_SIZE_MAX) { return -1; }  (without a lower bound on len)",
+ "sp_start_parent": "ppid = getppid();",
+ "sp_pass": "SNOOPY_FILTER_PASS in snoopy.h", "sp_drop": "SNOOPY_FILTER_DROP in snoopy.h",
+}
+
 
 def char_lit(txt):
     """'x' or '\\n' -> int, else None"""
@@ -30,6 +48,108 @@ def char_lit(txt):
         return None
     b = c_unescape(m.group(1))
     return b[0] if len(b) == 1 else None
+
+
+def _match_brace(txt, i):
+    """txt[i] == '{' -> index just behind the matching '}' (string/char literals skipped)"""
+    depth, j = 0, i
+    while j < len(txt):
+        ch = txt[j]
+        if ch in "\"'":
+            q = ch
+            j += 1
+            while j < len(txt) and txt[j] != q:
+                j += 2 if txt[j] == "\\" else 1
+        elif ch == "{":
+            depth += 1
+        elif ch == "}":
+            depth -= 1
+            if depth == 0:
+                return j + 1
+        j += 1
+    return None
+
+
+def loops_to_while(body):
+    """`for (init; cond; step) { body }` without `continue` in the body is rewritten to `init; while (cond) { body step; }`
+    (the definition of the for statement), so that a for<->while clean-up leaves the recognised text unchanged."""
+    out = body
+    for _ in range(16):
+        m = re.search(r"\bfor\s*\(([^;(){}]*);([^;{}]*);([^;{}]*)\)\s*\{", out)
+        if not m:
+            break
+        end = _match_brace(out, m.end() - 1)
+        if end is None:
+            break
+        inner = out[m.end():end - 1]
+        if re.search(r"\bcontinue\b", inner):
+            out = out[:m.start()] + "FOR_WITH_CONTINUE" + out[m.start() + 3:]     # left alone (and made unrecognisable on purpose)
+            continue
+        init, cond, step = m.group(1).strip(), m.group(2).strip(), m.group(3).strip()
+        out = out[:m.start()] + (init + "; " if init else "") + "while (" + (cond or "1") + ") {" + inner.rstrip() + ("\n" + step + ";" if step else "") + "\n}" + out[end:]
+    return out
+
+
+ANALYSED = ("snoopy_filter_exclude_spawns_of", "find_ancestor_in_list", "find_string_in_array", "string_to_token_array")
+
+
+def inline_static_calls(src, body, val, notes):
+    """Statements `x = helper(a, b);` where `helper` is another file-local static function (not one of the functions this translator
+    analyses by name) are replaced by the helper's body: parameters substituted by the (call-free) arguments, the local that the final
+    `return r;` hands back renamed to `x`.  Early `return K;` statements (K an integer literal) are kept as `return K;` of the caller,
+    which is what they amount to, ONLY when the statement behind the call is `if (x < M) { return K; }` with K < M; otherwise the call
+    is left in place (and the statements moved into the helper stay unrecognised)."""
+    statics = {}
+    for m in re.finditer(r"^[ \t]*static\s+[\w\s\*]+?\b(\w+)\s*\(([^;{)]*)\)\s*\{", src, re.M):
+        if m.group(1) not in ANALYSED:
+            statics[m.group(1)] = [x.strip() for x in m.group(2).split(",")] if m.group(2).strip() not in ("", "void") else []
+    out = body
+    for _ in range(8):
+        hit = None
+        for h in statics:
+            hit = re.search(r"(?<![\w>.])(\w+)\s*=\s*(?:\([\w\s]+\)\s*)?" + re.escape(h) + r"\s*\(([^;()]*)\)\s*;", out)
+            if hit:
+                hname = h
+                break
+        if not hit:
+            break
+        lhs, args = hit.group(1), [a.strip() for a in hit.group(2).split(",")] if hit.group(2).strip() else []
+        params = [re.findall(r"\w+", p)[-1] for p in statics[hname] if re.findall(r"\w+", p)]
+        hb = (func_body(src, hname) or "").strip()
+        last = re.search(r"\breturn\s+([^;]+);\s*$", hb)
+        why = None
+        if len(params) != len(args) or not all(re.fullmatch(r"[\w\s>.\-+*&\[\]]+", a) for a in args):
+            why = "arguments are not simple expressions"
+        elif not last:
+            why = "it does not end in a return statement"
+        else:
+            pre, ret = hb[:last.start()], last.group(1).strip()
+            early = re.findall(r"\breturn\b\s*([^;]*);", pre)
+            if early:
+                nxt = re.match(r"\s*if\s*\(\s*" + re.escape(lhs) + r"\s*<\s*([^){}]+?)\s*\)\s*\{\s*return\s+(-?\d+)\s*;\s*\}", out[hit.end():])
+                if not all(re.fullmatch(r"-?\d+", k.strip()) for k in early):
+                    why = "it has an early return of a non-literal value"
+                elif not nxt or any(k.strip() != nxt.group(2) for k in early):
+                    why = "its early return value is not what the caller returns for small results"
+                else:
+                    mval = val(nxt.group(1))
+                    if mval is None or not int(nxt.group(2)) < mval:
+                        why = "its early return value does not take the caller's error branch"
+        if why:
+            notes.append("translator: spawns: call of static helper %s() not inlined (%s): the statements moved into it are not recognised" % (hname, why))
+            out = out[:hit.start()] + out[hit.start():hit.end()].replace(hname, hname + "_NOT_INLINED") + out[hit.end():]
+            continue
+        sub = dict(zip(params, args))
+        if re.fullmatch(r"\w+", ret) and ret not in sub and ret != lhs:
+            sub[ret] = lhs                                             # the local handed back becomes the caller's variable
+            ret = lhs
+        if sub:
+            pre = re.sub(r"\b(" + "|".join(re.escape(k) for k in sub) + r")\b", lambda mm: sub[mm.group(1)], pre)
+            if ret in sub:
+                ret = sub[ret]
+        tail = "" if ret == lhs else "%s = %s;" % (lhs, ret)
+        out = out[:hit.start()] + "\n" + pre + tail + "\n" + out[hit.end():]
+    return out
 
 
 def tr_spawns(run):
@@ -52,22 +172,31 @@ def tr_spawns(run):
     # --- separator and the strtok_r delimiter
     m = re.search(r"^[ \t]*#[ \t]*define[ \t]+PROGLISTSEP[ \t]+('(?:\\.|[^'\\])+')", src, re.M)
     v["sp_sep"] = char_lit(m.group(1)) if m else None
-    tb = func_body(src, "string_to_token_array") or ""
+    tb = loops_to_while(func_body(src, "string_to_token_array") or "")
     d = re.search(r"char\s+(\w+)\s*\[\s*\]\s*=\s*\{\s*PROGLISTSEP\s*,\s*'\\0'\s*\}", tb)
-    ok_tok = bool(d) and bool(re.search(r"strtok_r\s*\(\s*p\s*,\s*" + (d.group(1) if d else "delim") + r"\s*,\s*&\s*saveptr\s*\)", tb))
-    # the slot count and the NULL tail: token_count = sepcount + 1; calloc(token_count + 1, ...); i < token_count; token_array[token_count] = NULL
-    ok_tok = ok_tok and bool(re.search(r"token_count\s*=\s*sepcount\s*\+\s*1\s*;", tb)) \
-        and bool(re.search(r"calloc\s*\(\s*token_count\s*\+\s*1\s*,", tb)) \
-        and bool(re.search(r"for\s*\(\s*int\s+i\s*=\s*0\s*;\s*i\s*<\s*token_count\s*;\s*i\+\+\s*\)", tb)) \
-        and bool(re.search(r"token_array\s*\[\s*token_count\s*\]\s*=\s*NULL\s*;", tb)) \
-        and bool(re.search(r"strchr\s*\(\s*str\s*,\s*PROGLISTSEP\s*\)", tb)) and bool(re.search(r"strchr\s*\(\s*p\s*\+\s*1\s*,\s*PROGLISTSEP\s*\)", tb)) \
-        and bool(re.search(r"\(\s*str\s*==\s*NULL\s*\)\s*\|\|\s*\(\s*\*str\s*==\s*'\\0'\s*\)", tb))
+    dn = re.escape(d.group(1)) if d else "delim"
+    INC = r"(?:\1\s*\+\+|\+\+\s*\1|\1\s*\+=\s*1|\1\s*=\s*\1\s*\+\s*1)"
+    fill = (r"(?:int\s+)?(\w+)\s*=\s*0\s*;\s*while\s*\(\s*\1\s*<\s*token_count\s*\)\s*\{\s*token_array\s*\[\s*\1\s*\]\s*=\s*strtok_r\s*\(\s*p\s*,\s*"
+            + dn + r"\s*,\s*&\s*saveptr\s*\)\s*;\s*p\s*=\s*NULL\s*;\s*" + INC + r"\s*;\s*\}")
+    shape = [
+        ("char delim[] = { PROGLISTSEP, '\\0' }", bool(d)),
+        ("if ((str == NULL) || (*str == '\\0')) return NULL", bool(re.search(r"\(\s*str\s*==\s*NULL\s*\)\s*\|\|\s*\(\s*\*str\s*==\s*'\\0'\s*\)", tb))),
+        ("p = strchr(str, PROGLISTSEP) / p = strchr(p + 1, PROGLISTSEP) (separator count)",
+         bool(re.search(r"strchr\s*\(\s*str\s*,\s*PROGLISTSEP\s*\)", tb)) and bool(re.search(r"strchr\s*\(\s*p\s*\+\s*1\s*,\s*PROGLISTSEP\s*\)", tb))),
+        ("token_count = sepcount + 1", bool(re.search(r"token_count\s*=\s*sepcount\s*\+\s*1\s*;", tb))),
+        ("calloc(token_count + 1, ...)", bool(re.search(r"calloc\s*\(\s*token_count\s*\+\s*1\s*,", tb))),
+        ("p = str; then the loop  i = 0 .. token_count-1: token_array[i] = strtok_r(p, delim, &saveptr); p = NULL;  (for or while form)",
+         bool(re.search(r"\bp\s*=\s*str\s*;\s*" + fill, tb)) or bool(re.search(r"(?:int\s+)?(\w+)\s*=\s*0\s*;\s*p\s*=\s*str\s*;\s*while\s*\(\s*\1\s*<\s*token_count", tb) and re.search(fill.replace(r"(?:int\s+)?(\w+)\s*=\s*0\s*;\s*", r"(?:int\s+)?(\w+)\s*=\s*0\s*;\s*p\s*=\s*str\s*;\s*", 1), tb))),
+        ("token_array[token_count] = NULL", bool(re.search(r"token_array\s*\[\s*token_count\s*\]\s*=\s*NULL\s*;", tb))),
+    ]
+    ok_tok = all(okk for _, okk in shape)
     v["sp_strtok_delim_is_sep"] = ok_tok
-    if not ok_tok:
-        notes.append("translator: spawns: string_to_token_array no longer has the recognised shape (separator count, calloc(count+2), strtok_r loop, NULL tail)")
+    for what, okk in shape:
+        if not okk:
+            notes.append("translator: spawns: string_to_token_array: statement not recognised: %s" % what)
 
     # --- the loop body
-    fb = func_body(src, "find_ancestor_in_list") or ""
+    fb = inline_static_calls(src, loops_to_while(func_body(src, "find_ancestor_in_list") or ""), val, notes)
     buf = array_size("st_buf", fb)
     commbuf = array_size("st_comm_buf", fb)
     pathbuf = array_size("stat_path", fb)
@@ -119,19 +248,39 @@ def tr_spawns(run):
     if m and m.group(1) != "getppid":
         notes.append("translator: spawns: the walk starts at %s(), not at getppid()" % m.group(1))
     v["sp_loop_while_nonzero"] = bool(re.search(r"while\s*\(\s*ppid\s*!=\s*0\s*\)\s*\{", fb)) and not re.search(r"\b(break|goto|continue)\b", fb)
+    if not v["sp_loop_while_nonzero"]:
+        notes.append("translator: spawns: find_ancestor_in_list: statement not recognised: while (ppid != 0) { ... } without break/goto/continue")
     rets = re.findall(r"return\s+(-?\d+)\s*;", fb)
-    found_ret = re.search(r"found\s*=\s*find_string_in_array\s*\(\s*st_comm_buf\s*,\s*name_list\s*\)\s*;\s*if\s*\(\s*found\s*\)\s*\{\s*return\s+1\s*;", fb)
+    found_ret = re.search(r"(\w+)\s*=\s*find_string_in_array\s*\(\s*st_comm_buf\s*,\s*name_list\s*\)\s*;\s*if\s*\(\s*\1\s*(?:!=\s*0\s*|==\s*1\s*)?\)\s*\{\s*return\s+1\s*;", fb) \
+        or re.search(r"if\s*\(\s*find_string_in_array\s*\(\s*st_comm_buf\s*,\s*name_list\s*\)\s*(?:!=\s*0\s*|==\s*1\s*)?\)\s*\{\s*return\s+1\s*;", fb)
     codes_ok = bool(found_ret) and rets.count("1") == 1 and bool(rets) and rets[-1] == "0" and rets.count("0") == 1 and all(r in ("1", "0", "-1") for r in rets)
     # comparison
-    sb = func_body(src, "find_string_in_array") or ""
-    v["sp_cmp_exact"] = bool(re.search(r"if\s*\(\s*strcmp\s*\(\s*str\s*,\s*\*p\s*\)\s*==\s*0\s*\)\s*\{\s*return\s+1\s*;", sb)) \
-        and bool(re.search(r"while\s*\(\s*\*p\s*!=\s*NULL\s*\)", sb)) and not re.search(r"strn?casecmp|strncmp|strstr|memcmp", sb)
+    sb = loops_to_while(func_body(src, "find_string_in_array") or "")
+    cmp_shape = [
+        ("if (strcmp(str, *p) == 0) { return 1; }", bool(re.search(r"if\s*\(\s*(?:strcmp\s*\(\s*str\s*,\s*\*p\s*\)\s*==\s*0|0\s*==\s*strcmp\s*\(\s*str\s*,\s*\*p\s*\)|!\s*strcmp\s*\(\s*str\s*,\s*\*p\s*\))\s*\)\s*\{\s*return\s+1\s*;", sb))),
+        ("while (*p != NULL) { ... p++; } over str_array (for or while form)", bool(re.search(r"while\s*\(\s*(?:\*p\s*!=\s*NULL|NULL\s*!=\s*\*p|\*p)\s*\)", sb))),
+        ("no other comparison function (strncmp, strcasecmp, strstr, memcmp) in find_string_in_array", not re.search(r"strn?casecmp|strncmp|strstr|memcmp", sb)),
+    ]
+    v["sp_cmp_exact"] = all(okk for _, okk in cmp_shape)
+    for what, okk in cmp_shape:
+        if not okk:
+            notes.append("translator: spawns: find_string_in_array: statement not recognised: %s" % what)
     # verdict mapping
     mb = func_body(src, "snoopy_filter_exclude_spawns_of") or ""
     tern = re.search(r"return\s*\(\s*is_ancestor_in_list\s*==\s*1\s*\)\s*\?\s*SNOOPY_FILTER_DROP\s*:\s*SNOOPY_FILTER_PASS\s*;", mb)
     early = re.search(r"if\s*\(\s*losp\s*==\s*NULL\s*\)\s*\{[^}]*return\s+SNOOPY_FILTER_PASS\s*;", mb)
     call = re.search(r"is_ancestor_in_list\s*=\s*find_ancestor_in_list\s*\(\s*losp\s*\)\s*;", mb)
-    v["sp_drop_iff_found"] = bool(tern) and bool(early) and bool(call) and codes_ok and len(re.findall(r"\breturn\b", mb)) == 2
+    verdict_shape = [
+        ("return (is_ancestor_in_list == 1) ? SNOOPY_FILTER_DROP : SNOOPY_FILTER_PASS;", bool(tern)),
+        ("if (losp == NULL) { ... return SNOOPY_FILTER_PASS; }", bool(early)),
+        ("is_ancestor_in_list = find_ancestor_in_list(losp);", bool(call)),
+        ("find_ancestor_in_list returns 1 only behind `found = find_string_in_array(st_comm_buf, name_list); if (found)`, 0 only at the end, -1 elsewhere", codes_ok),
+        ("exactly two return statements in snoopy_filter_exclude_spawns_of", len(re.findall(r"\breturn\b", mb)) == 2),
+    ]
+    v["sp_drop_iff_found"] = all(bool(okk) for _, okk in verdict_shape)
+    for what, okk in verdict_shape:
+        if not okk:
+            notes.append("translator: spawns: verdict mapping: statement not recognised: %s" % what)
     v["sp_pass"] = cpp_value(run, "SNOOPY_FILTER_PASS", includes=("limits.h", "snoopy.h"))
     v["sp_drop"] = cpp_value(run, "SNOOPY_FILTER_DROP", includes=("limits.h", "snoopy.h"))
 
@@ -140,7 +289,7 @@ def tr_spawns(run):
     for k in ORDER:
         x = v.get(k)
         if x is None:
-            notes.append("translator: could not read spawns.%s from the source" % k)
+            notes.append("translator: could not read spawns.%s from the source%s" % (k, (": statement not recognised: " + EXPECT[k]) if k in EXPECT else ""))
             x = BAD[k]
         kind = KIND.get(k, "bool")
         if kind == "bool":
